@@ -45,7 +45,7 @@ PROPS = {
     assumptions=[A['A4'], A['A6'], A['A7']],
     explanation='==, is_zero, to_affine, to_jacobian, zero verified over the affine view for identity / z=1 / general representatives and all relations'),
  'C09': dict(
-    tasks=T('mirvc:specs_groups', 'mirvc:specs_lib', 'gsearch:all'),
+    tasks=T('mirvc:specs_groups', 'mirvc:specs_lib', 'gsearch:all', 'csearch:debug'),
     trusted_base=[A['A3'], A['A4'], A['A7'], A['A9']],
     assumptions=[A['A3'], A['A4'], A['A7']],
     explanation='AffineG::new: Ok iff y^2 = x^3 + b and (check_order => [r-1]P + P = O), for both values of check_order'),
@@ -64,6 +64,26 @@ PROPS = {
     trusted_base=[A['A3'], A['A4'], A['A7'], A['A9'], 'hand-over: U256::from(Fr) = canonical value; bits_without_leading_zeros yields the binary digits (limb-level obligations)'],
     assumptions=[A['A3'], A['A4'], A['A6'], A['A7']],
     explanation='double-and-add loop of Mul<Fr> for G<P> verified with the inductive invariant pt(res) = [prefix] pt(self) over the abstract group; wrappers k*P / P*k are delegation obligations; double/+= meet the group law (C04 obligations)'),
+ 'C08': dict(
+    tasks=T('csearch:debug'),
+    trusted_base=[A['A7'], A['A9']],
+    assumptions=[A['A7'], A['A9']],
+    explanation='(under construction) decoder contracts'),
+ 'C10': dict(
+    tasks=T('csearch:debug', 'mirvc:specs_lib', 'mirvc:specs_groups'),
+    trusted_base=[A['A7'], A['A9']],
+    assumptions=[A['A7'], A['A9']],
+    explanation='(under construction) encoder contracts'),
+ 'C07': dict(
+    tasks=T('lsearch:all', 'mirvc:specs_lib'),
+    trusted_base=[A['A6'], A['A7']],
+    assumptions=[A['A6'], A['A7']],
+    explanation='(under construction) canonicity'),
+ 'C14': dict(
+    tasks=T('lsearch:all', 'mirvc:specs_lib', 'csearch:debug'),
+    trusted_base=[A['A2'], A['A7']],
+    assumptions=[A['A2'], A['A7']],
+    explanation='(under construction) square roots'),
 }
 
 HOOK_COMMITS = ['8aeb3f0']
